@@ -1134,6 +1134,16 @@ func (fe *FnEnc) trCall(x ECall, env *Env) SVal {
 			return SVal{T: tSel(fe.getComp(env.state(), respServed, arrSort(sInt, sBool)), k), Typ: types.Typ[types.Bool]}
 		}
 		return SVal{T: tSel(fe.getComp(env.state(), respServedOf, arrSort(sInt, sStr)), k), Typ: types.Typ[types.String]}
+	case "lastIndex": // lastIndex(s, sep): strings.LastIndex
+		a := fe.mat(fe.tr(x.Args[0], env), env)
+		b := fe.mat(fe.tr(x.Args[1], env), env)
+		fe.declFun("strings.LastIndex", []string{sStr, sStr}, sInt)
+		return SVal{T: Term{app("strings.LastIndex", a.T, b.T), sInt}, Typ: types.Typ[types.Int]}
+	case "substr": // substr(s, lo, hi): s[lo:hi]
+		a := fe.mat(fe.tr(x.Args[0], env), env)
+		lo := fe.mat(fe.tr(x.Args[1], env), env)
+		hi := fe.mat(fe.tr(x.Args[2], env), env)
+		return SVal{T: Term{app("substr", a.T, lo.T, hi.T), sStr}, Typ: types.Typ[types.String]}
 	case "same": // same(Type.field) / same(ghost name): a whole ghost component is unchanged since the old state
 		name := exprName(x.Args[0])
 		var cn, cs string
